@@ -42,6 +42,11 @@ def cases(tier, rng):
         yield {'pol': pol, 'gs': rng.randint(1, n + 1), 'stims': stims, 'fs': rng.choice(FS), 't0': rng.choice([0, 9]),
                'seed': rng.randint(0, 99), 'ops': ops, 'fill': rng.choice(['append', 'extend', 'mixed'])}
     yield from _audit_cases(quick, rng)
+    # a queue to which NOTHING was appended: every class answers with silence and 'empty' (C03_no_stimuli)
+    for pol in qc.POLICIES:
+        for ops in ([['pop', 5], ['pop', 3]], [['pop', 0], ['pop', 1]]):
+            yield {'pol': pol, 'gs': 2, 'stims': [], 'fs': rng.choice(FS), 't0': rng.choice([0, 9]), 'seed': 1,
+                   'ops': ops, 'fill': 'append'}
 
 
 def _audit_cases(quick, rng):
